@@ -34,6 +34,7 @@ def _div(us):
     return us / 1000000
 
 
+ORIGIN = 1_000_000
 SCALE = 1  # probe: 1 tick == 1 "second"; the real shim will carry microseconds
 
 
@@ -45,7 +46,13 @@ class ShimDT:
 
     @classmethod
     def now(cls, tz=None):
-        return ShimDT(1_000_000)  # an arbitrary fixed wall-clock origin
+        # an arbitrary wall-clock origin plus the (possibly symbolic) virtual loop time, 1 tick == 1 second
+        import asyncio
+        try:
+            t = asyncio.get_running_loop().time()
+        except RuntimeError:
+            t = 0
+        return ShimDT(ORIGIN + t)
 
     def __add__(self, o):
         if isinstance(o, ShimSec):
@@ -66,6 +73,8 @@ class ShimDT:
     def __eq__(self, o): return isinstance(o, ShimDT) and self.t == o.t
     def __hash__(self): return 0
     def isoformat(self, timespec='microseconds'): return ShimStamp(self)
+    def replace(self, **kw): return self
+    tzinfo = 'UTC'
     def __repr__(self): return f'ShimDT({self.t!r})'
 
 
@@ -91,6 +100,9 @@ class ShimStamp(str):
         obj = super().__new__(cls, '<shim-stamp>')
         obj.dt = dt
         return obj
+
+    def __str__(self):
+        return self        # str(stamp) keeps the carried instant (kopf wraps isoformat() in str())
 
 
 def timedelta(seconds=0):
